@@ -18,6 +18,7 @@ from vf import faults, gen as G, oracle as O, snapshot as S
 from vf.checks.common import Case, call, exc_text
 
 ID = "C11"
+TECHNIQUE = "runtime monitoring with fault injection: sys.monitoring failpoints at internal call boundaries / statements, operand snapshots after each injected run"
 LEVEL = "fault_enumeration"
 RULE = ("operations (containment of shapes/curves/points, | & - ^ ~, ==, integrals, copy, float) on operand "
         "combinations that reach in-place edits (connected-in-simple, short-cuts of | and &, splitting operators, "
